@@ -116,7 +116,7 @@ PROPS = {
             "sequential semantics: the enforcer is used behind one lock",
         ],
         "clauses_not_decided": [
-            "slot return when the routing table drops a node (DhtCoreEngine::evict_node / handle_node_failure never touch the enforcers; known from reading: slots are NOT returned on those paths -- no contract on those functions can even state it, so this stays undecided and is recorded in DESIGN 0.6 as an open observation, not as a finding of a check)",
+            "slot return when the routing table drops a node (DhtCoreEngine::evict_node / handle_node_failure): DECIDED and failing -- recorded as four known findings (KNOWN_FINDINGS.txt), not repaired; a second leak of the same kind (add_node for an already listed peer takes slots again) is known from reading and not under contract",
             "whether the connecting-peer path applies the gate at all (address string rendering, C19)",
             "BootstrapManager::add_peer (async, ant-quic cache)",
         ],
